@@ -2,7 +2,8 @@
   C08 — both in-memory write buffers behave as one ordered map with nested undo.
 
   `VLog` (Model/VLog.lean) models the mechanism the radix-tree and the red-black-tree buffer share: the append-only value
-  log with back links, per-node value pointer / flags / delete mark, staging marks, checkpoints, the in-place swap rule,
+  log with back links, per-node value pointer / flags / delete mark, staging marks, checkpoints (incl. the remembered
+  newest checkpoint `lastCheckpoint`), the in-place swap rule,
   the backwards walk of RevertToCheckpoint and the incremental len/size/dirty counters.  `Spec` (Spec/MemBuf.lean) is the
   reference: key ↦ (present, flags, version list), a stack of marks, len/size defined by counting.
   `abs` reads a `Spec` off a `VLog`; `Inv` is the representation invariant (links well formed, counters exact, …).
@@ -226,28 +227,10 @@ theorem limits_exact (m : VLog) (k : Bytes) (v : Option Bytes) (ops : List Nat) 
 
 /-! ## checkpoints -/
 
-/-- FULL-STRENGTH statement for checkpoints (what the property text asks for): take a checkpoint, run any calls that do not
-    pop the stages that were open at the checkpoint and do not revert below it, revert to the checkpoint — every key reads
-    as it did at the checkpoint.  This is FALSE of the mechanism (`revert_restores_view_false`): a same-length overwrite
-    after the checkpoint is applied in place and is not undone (DESIGN §6 S10). -/
-def revert_restores_view : Prop :=
-  ∀ (m : VLog), Inv m → ∀ (body : List Op),
-    KeepsStage m.stages.length (abs m) body → NoRevertBelow m.checkpoint body →
-    ((m.run body).1.step (.revert m.checkpoint)).2 = .ok →
-    ∀ k, (((m.run body).1.step (.revert m.checkpoint)).1.step (.get k)).2 = (m.step (.get k)).2
-
-/-- witness: Set k aa; Checkpoint; Set k bb; RevertToCheckpoint; Get k = bb -/
-theorem revert_restores_view_false : ¬ revert_restores_view := by
-  intro h
-  have hinv := (run_refines inv_init [.set [0x6b] [0xaa] []]).2
-  have := h (VLog.init.run [.set [0x6b] [0xaa] []]).1 hinv [.set [0x6b] [0xbb] []]
-    (by simp [KeepsStage]) (by intro op hop; simp at hop; subst hop; trivial) (by decide) [0x6b]
-  revert this
-  decide
-
-/-- What remains true: if additionally no version that existed at the checkpoint is overwritten in place (`Respects`:
-    every `set` is `SafeSwap`, i.e. it changes the length, or the key's current value is newer than the checkpoint, or
-    the value is protected by a stage), reverting restores every value. -/
+/-- The general form: for ANY mark `m.checkpoint` (whether or not it was handed out by `Checkpoint()`), if no version that
+    existed at the mark is overwritten in place (`Respects`: every `set` is `SafeSwap`), nothing pops below it and nothing
+    reverts below it, reverting to the mark restores every value.  `revert_restores_view` discharges `Respects` from the
+    remembered checkpoint. -/
 theorem revert_restores_view_partial (m : VLog) (hi : Inv m) (body : List Op)
     (hr : Respects m.checkpoint m.stages (abs m) body)
     (hok : ((m.run body).1.step (.revert m.checkpoint)).2 = .ok) (k : Bytes) :
@@ -281,6 +264,24 @@ theorem revert_restores_view_partial (m : VLog) (hi : Inv m) (body : List Op)
   have ea' : abs ((m.run body).1.revertTo m.checkpoint) = (abs (m.run body).1).undoTo m.checkpoint := ea
   rw [hst, ea', vers_undoTo_abs, hf2.vers k]
 
+/-- FULL-STRENGTH statement for checkpoints: take a checkpoint (`Checkpoint()`), run any calls that do not pop the stages
+    that were open at the checkpoint and do not revert below it, revert to the checkpoint — every key reads as it did at
+    the checkpoint.  In the unpatched tree this was false (a same-length overwrite after the checkpoint was applied in
+    place and not undone, DESIGN §6 S10: `set k aa; checkpoint; set k bb; revert; get k = bb`); with `lastCheckpoint`
+    (the newest checkpoint handed out guards the in-place swap in ART.trySwapValue / RBT.setValue) it holds. -/
+theorem revert_restores_view (m0 : VLog) (hi0 : Inv m0) (body : List Op)
+    (hk : KeepsStage (m0.step .checkpoint).1.stages.length (abs (m0.step .checkpoint).1) body)
+    (hn : NoRevertBelow (m0.step .checkpoint).1.checkpoint body)
+    (hok : (((m0.step .checkpoint).1.run body).1.step (.revert (m0.step .checkpoint).1.checkpoint)).2 = .ok) (k : Bytes) :
+    ((((m0.step .checkpoint).1.run body).1.step (.revert (m0.step .checkpoint).1.checkpoint)).1.step (.get k)).2
+      = ((m0.step .checkpoint).1.step (.get k)).2 := by
+  have hi := (step_refines hi0 .checkpoint).2
+  have hg : (m0.step .checkpoint).1.checkpoint ≤ (abs (m0.step .checkpoint).1).guard := Nat.le_refl _
+  generalize (m0.step .checkpoint).1 = m at *
+  have hf1 : Frame m.checkpoint m.stages (fun k => (abs m).vers k) (abs m) :=
+    ⟨⟨[], by simp [abs], by simp⟩, Nat.le_refl _, fun k => oldPart_self _ _ (vers_abs_le m k)⟩
+  exact revert_restores_view_partial m hi body (respects_of_guard body _ hf1 hg hk hn) hok k
+
 /-! ## non-vacuity of the hypotheses -/
 
 example : Inv VLog.init := inv_init
@@ -290,6 +291,13 @@ example : KeepsStage 1 (abs (VLog.init.step .staging).1) [.set [1] [2] [], .stag
   refine ⟨trivial, trivial, trivial, ?_, trivial, trivial⟩
   right; right; decide
 example : ((VLog.init.step .staging).1.run [.set [1] [2] []]).1.stages.length = 0 + 1 := by decide
+example : KeepsStage (VLog.init.step .checkpoint).1.stages.length (abs (VLog.init.step .checkpoint).1) [.set [1] [2] [], .set [1] [3] []] := by
+  refine ⟨trivial, trivial, trivial⟩
+example : NoRevertBelow 0 [.set [1] [2] [], .revert 0] := by
+  intro op hop
+  simp at hop
+  rcases hop with h | h <;> subst h <;> simp
+example : (((VLog.init.step .checkpoint).1.run [.set [1] [2] []]).1.step (.revert 0)).2 = .ok := by decide
 example : Respects 0 [] (abs VLog.init) [.set [1] [2] [], .set [1] [3] []] := by
   refine ⟨?_, ?_, trivial⟩
   · simp [Allowed, SafeSwap, Spec.vers, Spec.find, abs, VLog.init]
